@@ -1018,6 +1018,9 @@ func (g *gen) instance(p *pattern, pInconsistent float64) string {
 						t = "(" + t + ")"
 					}
 				}
+				if (g.mode == "c02" || g.mode == "c01") && g.chance(0.3) {
+					t = g.pick("f", "pkg.Do", "g") + "(" + g.pick("xs", "a, b", "1", "v, xs") + g.pick("", "", "...") + ")"
+				}
 				// keep precedence safe
 				if strings.ContainsAny(t, " ") && !strings.HasPrefix(t, "(") && !strings.HasPrefix(t, "func") {
 					t = "(" + t + ")"
@@ -1119,9 +1122,51 @@ func (g *gen) structMutate(t string) string {
 	return t
 }
 
+// posOnlyCopy returns the expression t with one token added or removed that
+// go/ast records only as a position being valid: the "..." of a call.
+func (g *gen) posOnlyCopy(t string) (string, bool) {
+	e, err := parser.ParseExpr(t)
+	if err != nil {
+		return "", false
+	}
+	type edit struct {
+		off int
+		del int
+		ins string
+	}
+	var cands []edit
+	ast.Inspect(e, func(n ast.Node) bool {
+		if c, ok := n.(*ast.CallExpr); ok && len(c.Args) > 0 {
+			if c.Ellipsis.IsValid() {
+				cands = append(cands, edit{int(c.Ellipsis) - 1, 3, ""})
+			} else {
+				cands = append(cands, edit{int(c.Rparen) - 1, 0, "..."})
+			}
+		}
+		return true
+	})
+	if len(cands) == 0 {
+		return "", false
+	}
+	c := cands[g.r.Intn(len(cands))]
+	if c.off < 0 || c.off+c.del > len(t) {
+		return "", false
+	}
+	out := t[:c.off] + c.ins + t[c.off+c.del:]
+	if _, err := parser.ParseExpr(out); err != nil {
+		return "", false
+	}
+	return out, true
+}
+
 // nearCopy returns code that differs from t in a single token, preferring the
 // tokens go/ast represents only by the validity of a position.
 func (g *gen) nearCopy(t string) string {
+	if g.chance(0.6) {
+		if m, ok := g.posOnlyCopy(t); ok {
+			return m
+		}
+	}
 	type tog struct{ from, to string }
 	togs := []tog{{"...)", ")"}, {"type T = int", "type T int"}, {"type T int", "type T = int"}, {"var (q int)", "var q int"},
 		{"var q int", "var (q int)"}, {"<-chan", "chan"}, {"(xs ...int)", "(xs []int)"}, {"() (int)", "() int"}, {"() int)", "() (int))"},
@@ -1204,7 +1249,16 @@ func (g *gen) fileWith(p *pattern, frags []string, pkg string, imports []string)
 		case kStmts:
 			pre := g.block(1, 2)
 			post := g.block(1, 2)
-			switch g.r.Intn(5) {
+			switch g.r.Intn(7) {
+			case 5, 6:
+				// an instance and, among the other statements of the same block, a nested block with another one
+				shape := g.pick("if cond {\n%s}\n", "for i := 0; i < n; i++ {\n%s}\n", "func() {\n%s}()\n", "switch {\ncase ok:\n%s}\n", "{\n%s}\n")
+				nested := fmt.Sprintf(shape, indent(g.block(1, 1)+fr+"\n", "\t"))
+				if g.chance(0.5) {
+					fn(pre + fr + "\n" + nested + post)
+				} else {
+					fn(pre + nested + fr + "\n" + post)
+				}
 			case 0:
 				fn(pre + fr + "\n" + post)
 			case 1:
@@ -1229,6 +1283,23 @@ func (g *gen) fileWith(p *pattern, frags []string, pkg string, imports []string)
 	}
 	if g.chance(0.5) {
 		sb.WriteString(g.genDecl() + "\n")
+	}
+	if len(imports) > 0 && g.chance(0.35) {
+		// a parameter or local variable that shadows the package name of one of the imports
+		spec := imports[g.r.Intn(len(imports))]
+		name := ""
+		if f := strings.Fields(spec); len(f) == 2 {
+			name = f[0]
+		} else {
+			name = baseOf(strings.Trim(spec, `"`))
+		}
+		if name != "_" && name != "." && name != "" {
+			if g.chance(0.5) {
+				sb.WriteString("func shadowParam(" + name + " *T) {\n\t" + name + ".Flush()\n}\n\n")
+			} else {
+				sb.WriteString("func shadowLocal() {\n\t" + name + " := newT()\n\t" + name + ".Close()\n}\n\n")
+			}
+		}
 	}
 	return sb.String()
 }
@@ -1451,6 +1522,12 @@ func genEngineCases(seed int64, n int, mode string) []Case {
 		patch := desc + header + p.meta + ic.meta + "@@\n" + ic.patchHead + body
 		note += ic.note
 		patches := []string{patch}
+		if g.mode != "c09" && p.meta != "" && g.chance(0.12) {
+			// scoping: the metavariables are declared by an earlier change of the same file that matches
+			// nothing; in the change that follows their names are ordinary identifiers
+			patches = []string{"@@\n" + p.meta + "@@\n-zzzNeverMatches(1)\n+zzz(2)\n\n" + desc + header + ic.meta + "@@\n" + ic.patchHead + body}
+			note += " scope"
+		}
 		var chain []string
 		if g.mode == "c09" && g.chance(0.35) {
 			// a concrete chain: change 2 spells out, without metavariables or elisions, the code that
